@@ -498,6 +498,53 @@ func (p *Program) closureSite(fn *ssa.Function) *ssa.MakeClosure {
 	return nil
 }
 
+// literalCallSite: the single call/defer/go instruction whose callee is the function literal fn itself
+// (`defer func(ctx context.Context) { … }(ctx)`), nil if the literal is used in any other way.
+func (p *Program) literalCallSite(fn *ssa.Function) ssa.CallInstruction {
+	mc := p.closureSite(fn)
+	var site ssa.CallInstruction
+	if mc != nil {
+		refs := mc.Referrers()
+		if refs == nil {
+			return nil
+		}
+		for _, ref := range *refs {
+			if _, isDbg := ref.(*ssa.DebugRef); isDbg {
+				continue
+			}
+			c, ok := ref.(ssa.CallInstruction)
+			if !ok || c.Common().Value != ssa.Value(mc) || site != nil {
+				return nil
+			}
+			site = c
+		}
+		return site
+	}
+	// a literal without free variables is a plain function value
+	par := fn.Parent()
+	if par == nil {
+		return nil
+	}
+	n := 0
+	eachInstr(par, func(in ssa.Instruction) {
+		if c, ok := in.(ssa.CallInstruction); ok && c.Common().Value == ssa.Value(fn) {
+			site = c
+			n++
+		}
+		for _, op := range in.Operands(nil) {
+			if op != nil && *op == ssa.Value(fn) {
+				if c, ok := in.(ssa.CallInstruction); !ok || c.Common().Value != ssa.Value(fn) {
+					n += 2
+				}
+			}
+		}
+	})
+	if n != 1 {
+		return nil
+	}
+	return site
+}
+
 // freeVarBinding returns the value bound to fv at the MakeClosure site of its function.
 func (p *Program) freeVarBinding(fv *ssa.FreeVar) ssa.Value {
 	fn := fv.Parent()
@@ -728,6 +775,15 @@ func (p *Program) originsCtx(v ssa.Value, start *originCtx, o originOpts) []ctxV
 			}
 		case *ssa.Parameter:
 			fn := x.Parent()
+			// a function literal that is called, deferred or spawned right where it is written: its parameters are the arguments
+			if fn.Parent() != nil {
+				if site := p.literalCallSite(fn); site != nil {
+					if a := argAt(site, paramIndex(x)); a != nil {
+						walk(a, ctx)
+						return
+					}
+				}
+			}
 			if o.local || !p.isTransparent(fn) {
 				root(v, ctx)
 				return
